@@ -349,7 +349,7 @@ func HarnessC14ClientSideFailures() {
 // sending" and "the client receives before it closes its side" are real
 // interleavings, explored by the scheduler with the happens-before monitor on.
 //
-//verif:harness property=C14 stubs=json,wire sched=explore preempt=1 preemptT=2 shard=proto:3 race=on
+//verif:harness property=C14 stubs=json,wire sched=explore preempt=1 preemptT=1 shard=proto:3 race=on
 func HarnessC14FullDuplex() {
 	c14Run(nondetChoice("proto", 3), true, true)
 }
